@@ -328,10 +328,15 @@ func (cs *ContractSet) parseFile(path string) error {
 			curLoop = nil
 			props = nil
 		case "guard":
-			// guard Agent.mux: transactions, closed, handler
+			// guard Agent.mux [C14]: transactions, closed, handler      (properties of the duties in brackets)
 			lhs, rhs, _ := strings.Cut(rest, ":")
+			gprops := append([]string(nil), props...)
+			if i := strings.Index(lhs, "["); i >= 0 {
+				gprops = strings.Fields(strings.NewReplacer("[", " ", "]", " ", ",", " ").Replace(lhs[i:]))
+				lhs = lhs[:i]
+			}
 			tn, mf, _ := strings.Cut(strings.TrimSpace(lhs), ".")
-			g := &Guard{Type: tn, Mutex: mf, Fields: map[string]bool{}, Props: append([]string(nil), props...)}
+			g := &Guard{Type: tn, Mutex: mf, Fields: map[string]bool{}, Props: gprops}
 			for _, f := range strings.Split(rhs, ",") {
 				g.Fields[strings.TrimSpace(f)] = true
 			}
@@ -340,6 +345,11 @@ func (cs *ContractSet) parseFile(path string) error {
 		case "shared":
 			// shared Client: atomic rto, maxAttempts; frozen c, a; sync wg, mux
 			lhs, rhs, _ := strings.Cut(rest, ":")
+			sprops := append([]string(nil), props...)
+			if i := strings.Index(lhs, "["); i >= 0 {
+				sprops = strings.Fields(strings.NewReplacer("[", " ", "]", " ", ",", " ").Replace(lhs[i:]))
+				lhs = lhs[:i]
+			}
 			tn := strings.TrimSpace(lhs)
 			g := cs.Guards[tn]
 			if g == nil {
@@ -348,7 +358,7 @@ func (cs *ContractSet) parseFile(path string) error {
 			}
 			g.Atomic, g.Frozen, g.Sync = map[string]bool{}, map[string]bool{}, map[string]bool{}
 			g.Complete = true
-			g.SharedProps = append([]string(nil), props...)
+			g.SharedProps = sprops
 			for _, part := range strings.Split(rhs, ";") {
 				kind, list, _ := strings.Cut(strings.TrimSpace(part), " ")
 				for _, f := range strings.Split(list, ",") {
